@@ -215,25 +215,26 @@ func (r *recorder) scenario(env *core.Env, idx int, nsubs, maxRecs int) error {
 	fsleep := rng.Intn(4)
 	kinds := make([]any, nsubs)
 	for i := range kinds {
-		kinds[i] = []string{"block", "block", "receipt"}[rng.Intn(3)]
+		kinds[i] = []string{"block", "header", "result", "receipt"}[rng.Intn(4)]
 	}
 	b := &core.Behaviour{ID: fmt.Sprintf("rec%d-%d", env.Seed, idx)}
 	if err := d.Reset(env, b); err != nil {
 		return err
 	}
 	defer d.Close()
-	if err := d.initScenario(core.Step{"gate": false, "base0": float64(base0), "fsleep": float64(fsleep), "kind": kinds}); err != nil {
+	msize := []int{100, 2, 3, 4}[rng.Intn(4)]
+	if err := d.initScenario(core.Step{"gate": false, "base0": float64(base0), "fsleep": float64(fsleep), "kind": kinds, "msize": float64(msize)}); err != nil {
 		return err
 	}
 	d.hub.decide = r.decide
 	r.mu.Lock()
 	r.failP = []float64{0, 0.15, 0.35, 0.6}[rng.Intn(4)]
 	r.failed, r.okAfterFail = false, false
-	r.log(map[string]any{"ev": "Reset", "base0": base0, "fsleep": fsleep, "kind": kinds})
+	r.log(map[string]any{"ev": "Reset", "base0": base0, "fsleep": fsleep, "kind": kinds, "msize": msize})
 	r.mu.Unlock()
 	recs := func() int { return len(d.rel) - 1 }
 	steps := 6 + rng.Intn(18)
-	backlog := rng.Intn(5) == 0 // let a subscriber fall more than a batch behind
+	backlog := rng.Intn(3) == 0 // let a subscriber fall more than a batch behind
 	for i := 0; i < steps && recs() < maxRecs-6; i++ {
 		var err error
 		switch x := rng.Intn(20); {
